@@ -59,7 +59,7 @@ def evaluate(src, extra_props=()):
         checks = {}
         for p in [prop] + [q for q in extra_props if q != prop]:
             t0 = time.time()
-            rc, out = sh(f"./check {p} --tier quick", cwd=VERIF, env={"VERIF_REPO": scratch}, timeout=3600)
+            rc, out = sh(f"./check {p} --tier quick", cwd=VERIF, env={"VERIF_REPO": scratch, "VERIF_EVIDENCE_DIR": os.path.join(scratch, "evidence")}, timeout=3600)
             viol = [l for l in out.splitlines() if l.startswith("VIOLATION")]
             sources = sorted({m.group(1) for m in re.finditer(r"^  (proof|bounded|family-bounded)[: ]", out, re.M)})
             firsts = [l.strip()[:300] for l in out.splitlines() if re.match(r"^  (proof|bounded|family-bounded)", l)][:4]
